@@ -144,7 +144,12 @@ def sel_arg(log, nidx, what, p, style):
 
 def _construct(cfg, mods, env, log, nodes, edges):
     log.nodes = nodes
-    for c in cfg["order"]:
+    order = cfg["order"]
+    if cfg.get("ctor_edges"):
+        # the documented constructor arguments in_edges / out_edges (machines and sinks): edges first, then the nodes with their
+        # edge lists in the configuration's order, then connect() as always (it finds the edges already registered)
+        order = [c for c in order if c[0] == "E"] + [c for c in order if c[0] == "N"]
+    for c in order:
         i = int(c[1:])
         if c[0] == "N":
             n = cfg["nodes"][i]
@@ -156,7 +161,10 @@ def _construct(cfg, mods, env, log, nodes, edges):
                                                   blocking=n["blocking"], out_edge_selection=sel_arg(log, i, 2, n["outsel"], st),
                                                   flow_item_type="pallet" if n.get("pallet") else "item")
             elif n["kind"] == "machine":
-                obj = mods["nodes.machine"].Machine(env, name, node_setup_time=n["setup"], work_capacity=n["wcap"],
+                kw = {}
+                if cfg.get("ctor_edges"):
+                    kw = dict(in_edges=[edges[j] for j in n["ins"]], out_edges=[edges[j] for j in n["outs"]])
+                obj = mods["nodes.machine"].Machine(env, name, node_setup_time=n["setup"], work_capacity=n["wcap"], **kw,
                                                     processing_delay=stream(log, i, 0, n["delays"], st), blocking=n["blocking"],
                                                     in_edge_selection=sel_arg(log, i, 1, n["insel"], st),
                                                     out_edge_selection=sel_arg(log, i, 2, n["outsel"], st))
@@ -169,7 +177,7 @@ def _construct(cfg, mods, env, log, nodes, edges):
                                                       processing_delay=stream(log, i, 0, n["delays"], st), blocking=n["blocking"],
                                                       out_edge_selection=sel_arg(log, i, 2, n["outsel"], st))
             else:
-                obj = mods["nodes.sink"].Sink(env, name)
+                obj = mods["nodes.sink"].Sink(env, name, **(dict(in_edges=[edges[j] for j in n["ins"]]) if cfg.get("ctor_edges") else {}))
             log.node_index[id(obj)] = i
             if n["kind"] == "source":
                 obj.node_setup_time = n["setup"]
@@ -190,7 +198,8 @@ def _construct(cfg, mods, env, log, nodes, edges):
                 else:
                     obj = common.load("edges.slotted_conveyor").ConveyorBelt(env, name, capacity=e["cap"], delay=1, accumulating=e["acc"])
             else:
-                obj = mods["edges.fleet"].Fleet(env, name, capacity=e["cap"], delay=e["fdelay"], transit_delay=e["transit"])
+                num = float if (i % 2) else int        # whole-number delays as int or as float
+                obj = mods["edges.fleet"].Fleet(env, name, capacity=e["cap"], delay=num(e["fdelay"]), transit_delay=num(e["transit"]))
             edges[i] = obj
             st = store_of(obj)
             oput, oget = st.put, st.get
@@ -221,6 +230,9 @@ def _construct(cfg, mods, env, log, nodes, edges):
                 log.lines.append("P %d %d %d" % (env.now, _i, getattr(it, "_vidx", -1)))
                 log.moved[_i] = log.moved.get(_i, 0) + 1
                 stamps(it, _i, True)
+                if isinstance(getattr(it, "items", None), list) and hasattr(it, "_vidx"):
+                    # implementation-side observation: what a pallet really carries when it is handed over
+                    log.lines.append("OBS %d %d pal %d %d" % (env.now, _i, it._vidx, len(it.items)))
                 return r
 
             def get(ev, _o=oget, _i=i):
@@ -755,6 +767,8 @@ def gen_config(rng, with_fleet=False):
     order = ["N%d" % i for i in range(len(nodes))] + ["E%d" % i for i in range(len(edges))]
     rng.shuffle(order)
     cfg = dict(model="factory", T=rng.choice([10, 20, 30, 40, 10, 20, 30, 40, 3]), nodes=nodes, edges=edges, connects=connects, order=order)
+    if rng.random() < 0.25:
+        cfg["ctor_edges"] = True
     if rng.random() < 0.2:
         # re-connect (same end points) an edge of a node with several edges on one side, preferably not the last of them
         cand = [e_ for n_ in nodes for side in ("ins", "outs") if len(n_[side]) > 1 for e_ in n_[side][:-1]]
